@@ -278,10 +278,11 @@ func (fr *frame) visitInstr(instr ssa.Instruction) bool /* returned */ {
 		if addr == nil {
 			panic(runtimePanic("nil pointer dereference (store)"))
 		}
+		T := deref(instr.Addr.Type())
 		if w.inInit == 0 {
-			w.noteGlobalStore(instr.Addr)
+			p.undo = append(p.undo, undoRec{T: T, addr: addr, old: load(T, addr)})
 		}
-		store(deref(instr.Addr.Type()), addr, fr.get(instr.Val))
+		store(T, addr, fr.get(instr.Val))
 
 	case *ssa.If:
 		c := fr.get(instr.Cond).(*Term)
@@ -377,6 +378,24 @@ func (fr *frame) visitInstr(instr ssa.Instruction) bool /* returned */ {
 	case *ssa.IndexAddr:
 		x := fr.get(instr.X)
 		idx := fr.get(instr.Index).(*Term)
+		if !idx.IsConst() && loadOnlyReferrers(instr) {
+			// symbolic index whose address is only dereferenced: read lazily through an ite chain (no fork per index)
+			var elems []Value
+			switch x := x.(type) {
+			case Slice:
+				elems = x
+			case *Value:
+				if x != nil {
+					elems = (*x).(Array)
+				}
+			}
+			if elems != nil && len(elems) <= 512 && allScalar(elems) {
+				i64 := p.toInt64(idx, instr.Index.Type())
+				p.check(w.tt.ULT(i64, w.tt.BVC(64, uint64(len(elems)))), fmt.Sprintf("index out of range with length %d", len(elems)))
+				fr.env[instr] = symElemRef{elems: elems, idx: i64}
+				break
+			}
+		}
 		switch x := x.(type) {
 		case Slice:
 			i := p.boundedIndex(idx, instr.Index.Type(), len(x))
@@ -890,4 +909,67 @@ func (p *Path) noteElem(ptr *Value, s Slice, i int) {
 		p.elemOrigin = map[*Value]elemRef{}
 	}
 	p.elemOrigin[ptr] = elemRef{s, i}
+}
+
+
+// undoRec records a memory write made during a path so that state reachable from package-level
+// variables (initialised once per worker) is restored before the next path.
+type undoRec struct {
+	T    types.Type // nil: raw cell
+	addr *Value
+	old  Value
+}
+
+// setCell writes a raw cell (engine intrinsics) with undo logging.
+func (p *Path) setCell(c *Value, v Value) {
+	if p.w.inInit == 0 {
+		p.undo = append(p.undo, undoRec{addr: c, old: *c})
+	}
+	*c = v
+}
+
+func (p *Path) rollbackWrites() {
+	for i := len(p.undo) - 1; i >= 0; i-- {
+		u := p.undo[i]
+		if u.T != nil {
+			store(u.T, u.addr, u.old)
+		} else {
+			*u.addr = u.old
+		}
+	}
+	p.undo = nil
+}
+
+
+// symElemRef is the address of elems[idx] for a symbolic idx (already bounds-checked); it only ever
+// flows into loads (see loadOnlyReferrers).
+type symElemRef struct {
+	elems []Value
+	idx   *Term
+}
+
+func loadOnlyReferrers(instr *ssa.IndexAddr) bool {
+	refs := instr.Referrers()
+	if refs == nil || len(*refs) == 0 {
+		return false
+	}
+	for _, r := range *refs {
+		u, ok := r.(*ssa.UnOp)
+		if !ok || u.Op != token.MUL || u.X != instr {
+			if _, isDbg := r.(*ssa.DebugRef); isDbg {
+				continue
+			}
+			return false
+		}
+	}
+	return true
+}
+
+func allScalar(elems []Value) bool {
+	for _, e := range elems {
+		if _, ok := e.(*Term); !ok {
+			return false
+		}
+	}
+	return true
 }
